@@ -58,7 +58,7 @@ def shapes_all_lengths(run, tier, nprng):
             tc = pt.PyTorchSTFTFrameComputer.from_stft_frame_computer(c, filter_type=ft, window_type=wt)
             x = nprng.randn(N)
             a = c.compute_full(x)
-            b = tc(torch.tensor(x, dtype=wt)).detach().numpy()
+            b = tc(stubs.torch_layout(x, dtype=wt)).detach().numpy()
             run.evaluations += 1
             ncol = c.num_coeffs
             if tuple(b.shape) != tuple(a.shape):
@@ -84,11 +84,15 @@ def pre_post_si(run, tier, nprng):
                 a = pre.Preemphasize(coeff).apply(x)
                 m = pt.PyTorchPreemphasize.from_preemphasize(pre.Preemphasize(coeff))
                 try:
-                    b = m(torch.tensor(x)).numpy()
+                    t = stubs.torch_layout(x)
+                    b = m(t).numpy()
+                    b_again = m(t).numpy()  # the module is a function of its argument: the same tensor, the same answer
                 except Exception as e:
                     run.violation({"kind": "torch_preemphasize_raises", "n": n, "coeff": coeff, "dtype": str(np.dtype(dt)), "error": repr(e)})
                     continue
                 run.evaluations += 1
+                if not np.array_equal(t.numpy(), x) or not np.array_equal(b, b_again):
+                    run.violation({"kind": "torch_preemphasize_modified_its_input", "n": n, "coeff": coeff, "dtype": str(np.dtype(dt))})
                 if a.shape != b.shape or not np.allclose(a, b, rtol=1e-5 if dt == np.float32 else 1e-12, atol=1e-6 if dt == np.float32 else 1e-12):
                     run.violation({"kind": "torch_preemphasize_differs", "n": n, "coeff": coeff, "dtype": str(np.dtype(dt))})
     # PostProcessor wrapper
@@ -109,7 +113,7 @@ def pre_post_si(run, tier, nprng):
             for dt in (np.float32, np.float64):
                 x = nprng.randn(N).astype(dt)
                 a = comp.compute_full(x)
-                b = pt.PyTorchSIFrameComputer.from_si_frame_computer(comp)(torch.tensor(x)).numpy()
+                b = pt.PyTorchSIFrameComputer.from_si_frame_computer(comp)(stubs.torch_layout(x)).numpy()
                 run.evaluations += 1
                 if a.shape != b.shape or a.dtype != b.dtype or not np.array_equal(a, b):
                     run.violation({"kind": "torch_si_wrapper_differs", "cfg": c, "N": N, "dtype": str(np.dtype(dt))})
